@@ -240,7 +240,7 @@ def files(draw, prof=None):
         if p['types']:
             for j in range(b.i(0, 2) if b.chance(65) else 0):
                 stem = b.pick(TYPE_STEMS) if p['kw_names'] else 't'
-                m['types'].append({'name': f'{stem}_{L}{j}', 'attrs': [], 'comps': [['n', None]], 'procs': []})
+                m['types'].append({'name': f'{stem}_{L}y{j}', 'attrs': [], 'comps': [['n', None]], 'procs': []})
         modules.append(m)
     free = []
     for j in range(n_free):
@@ -268,7 +268,7 @@ def files(draw, prof=None):
         m['_scope'] = mscope
         for ti, t in enumerate(m['types']):
             if b.chance(25):
-                t['attrs'].append(b.pick(['public', 'private']) if m['access'] or b.chance(50) else 'public')
+                t['attrs'].append('public')
             if ti > 0 and b.chance(35):
                 t['attrs'].append(f'extends({m["types"][0]["name"]})')
                 t['extends'] = m['types'][0]['name']
@@ -277,7 +277,7 @@ def files(draw, prof=None):
                 t['comps'].append([b.pick(KW_VARS) + f'_{ti}', None])
             # member of an earlier type (same module or an earlier module)
             cands = [(m['name'], tt['name']) for tt in m['types'][:ti] if tt['name'] != t.get('extends')]
-            cands += [(mm['name'], tt['name']) for mm in modules[:mi] for tt in mm['types']]
+            cands += [(mm['name'], tt['name']) for mm in modules[:mi] for tt in mm['types'] if not tt.get('abstract')]
             if cands and b.chance(45):
                 tm, tn = b.pick(cands)
                 local = tn if tm == m['name'] else access(b, mscope, tm, tn, allow_rename=False)
@@ -309,8 +309,8 @@ def files(draw, prof=None):
                 r = _new_routine('sub', pname, 'final', this=t['name'])
                 m['routines'].append(r)
                 t['procs'].append(['final', pname])
-            if p.get('deferred') and not t.get('extends') and not t['procs'] and b.chance(20) \
-                    and not any(c[1] for c in t['comps']):
+            if p.get('deferred') and not t.get('extends') and not t['procs'] and b.chance(25) \
+                    and not any(c[1] for c in t['comps']) and ti == len(m['types']) - 1 and (ti > 0 or len(m['types']) == 1):
                 # abstract type with a deferred binding (nobody instantiates it)
                 t['attrs'].append('abstract')
                 t['abstract'] = True
@@ -366,7 +366,7 @@ def files(draw, prof=None):
             if c < 2:
                 r['prefix'] = ['recursive']
             elif c < 3:
-                r['prefix'] = [b.pick(['impure elemental', 'pure'])]
+                r['prefix'] = [b.pick(['impure elemental', 'pure']) if mod is not None else 'pure']
                 pure = r['prefix'] == ['pure']
         if r['sig'] == 'final':
             pure = True
@@ -443,8 +443,10 @@ def files(draw, prof=None):
     def functions(env):
         r, mod = env['r'], env['mod']
         out = []
+        banned = [h for h in env['hosts'] + [r] if 'recursive' not in ' '.join(h['prefix'])]
         if mod is not None:
-            out += [('same', rr['name'], None) for rr in mod['routines'] if rr['sig'] == 'fun' and rr is not r]
+            out += [('same', rr['name'], None) for rr in mod['routines'] if rr['sig'] == 'fun'
+                    and not any(rr is h for h in banned)]
         for mm in modules[:env['limit']]:
             out += [('mod', rr['name'], mm['name']) for rr in mm['routines'] if rr['sig'] == 'fun']
         out += [('internal', c['name'], None) for c in r['contains'] if c['k'] == 'fun']
